@@ -28,70 +28,145 @@ def _fconst(t):
     return None
 
 
-def run_float(ctx, rep, cfg="Q", rule="FLOAT-SIGN", floor=4):
+def _float_sign_sites(f):
+    """yields (ok: bool, kind, ordinal, text, loc) for every FLOAT-SIGNUM / FLOAT-TIE site of one function"""
+    has_f = any(t.get("path", "").endswith("::signum") and re.search(r"f(32|64)", t.get("path", "")) for _, t in mir.iter_calls(f))
+    has_rem = any(s["s"] == "=" and s["rv"]["k"] == "bin" and s["rv"]["op"] == "Rem" and s["rv"].get("ty") in ("f64", "f32")
+                  for b in f.blocks for s in b["st"])
+    if not (has_f or has_rem):
+        return
+    T = Terms(f)
+    cmps = []
+    for bi, b in enumerate(f.blocks):
+        for si, s in enumerate(b["st"]):
+            if s["s"] == "=" and s["rv"]["k"] == "bin" and s["rv"]["op"] in CMP:
+                cmps.append((bi, si, s, T.operand(s["rv"]["a"], pos=(bi, si)), T.operand(s["rv"]["b"], pos=(bi, si))))
+    zero_tested = set()
+    for (_bi, _si, _s, a, b) in cmps:
+        if _fconst(b) == 0.0:
+            zero_tested.add(a)
+        if _fconst(a) == 0.0:
+            zero_tested.add(b)
+    ords = {}
+    for (bi, si, s, a, b) in cmps:
+        loc = "%s:%s" % (f.file, s.get("ln"))
+        for side in (a, b):
+            for x in [x for x in walk(side) if _is_fsignum(x)]:
+                ords["signum"] = ords.get("signum", 0) + 1
+                arg = x[2][0] if x[2] else None
+                if arg in zero_tested:
+                    yield (True, "FLOAT-SIGNUM", ords["signum"], "the argument of signum is also compared with 0", loc)
+                else:
+                    yield (False, "FLOAT-SIGNUM", ords["signum"], "signum(%s) is compared as if it could be 0, but float signum maps +0.0 to "
+                           "1.0: an exact result (difference 0) is classified as a positive change" % show(arg, maxd=3)[:120], loc)
+        for (lhs, rhs) in ((a, b), (b, a)):
+            c = _fconst(rhs)
+            if c is not None and c > 0 and lhs[0] == "bin" and lhs[1] == "Rem" and s["rv"]["op"] in ("Eq", "Ne"):
+                ords["tie"] = ords.get("tie", 0) + 1
+                dividend = lhs[2]
+                if dividend[0] == "call" and dividend[1].endswith("::abs"):
+                    yield (True, "FLOAT-TIE", ords["tie"], "the dividend is an absolute value", loc)
+                else:
+                    yield (False, "FLOAT-TIE", ords["tie"], "`%s %% %s == %s` is true only for non-negative dividends (the remainder of a "
+                           "negative dividend is negative), so negative ties are not detected" % (show(dividend, maxd=2)[:80], show(lhs[3])[:12], c), loc)
+        for (lhs, rhs) in ((a, b), (b, a)):
+            c = _fconst(rhs)
+            if c is not None and c > 0 and lhs[0] == "call" and lhs[1].endswith("::abs") and lhs[2] and lhs[2][0][0] == "bin" and lhs[2][0][1] == "Rem":
+                ords["tie"] = ords.get("tie", 0) + 1
+                yield (True, "FLOAT-TIE", ords["tie"], "the remainder is made absolute", loc)
+
+
+WIDE_INT = ("i64", "u64", "i128", "u128", "isize", "usize")
+
+
+def _float_exact_sites(f):
+    """(ordinal, from type, loc) of every conversion of an integer wider than the f64 mantissa into a float"""
+    n = 0
+    for b in f.blocks:
+        for s in b["st"]:
+            if s["s"] == "=" and s["rv"]["k"] == "cast" and s["rv"].get("kind") == "IntToFloat" and s["rv"].get("from") in WIDE_INT:
+                n += 1
+                yield (n, s["rv"]["from"], "%s:%s" % (f.file, s.get("ln")))
+
+
+def _controls(rep, rule, what, got, want):
+    """positive/negative control on the committed control crate: the matcher must report exactly the bad examples"""
+    if got == want:
+        rep.ok(rule, "matcher control", how="on fixtures/controls.jsonl the matcher reports %s and nothing else" % sorted(want), nontrivial=False)
+    else:
+        rep.violation(rule, "matcher control", "positive control failed: on the control crate the %s matcher reports %s, expected %s "
+                      "(a rule that has no instance on the repository must still find its tiny bad example)" % (what, sorted(got), sorted(want)),
+                      "fixtures/controls/src/lib.rs")
+
+
+def run_float(ctx, rep, cfg="Q", rule="FLOAT-SIGN", floor=0):
+    from . import facts
     rep.rule(rule, "FLOAT-SIGNUM: the result of f64/f32::signum (which is never 0) is compared with another value only in functions "
                    "that also compare its argument with 0; FLOAT-TIE: a float remainder compared with a positive constant (the tie "
                    "test `x % 1.0 == 0.5`) has an absolute value as dividend or is itself made absolute, because `%` keeps the "
-                   "dividend's sign (checked in every function of the crate)")
+                   "dividend's sign (checked in every function of the crate). Since the repair of F47 the calendar rounding uses "
+                   "no floats and the crate has no instance of either pattern; the matcher is kept alive by a control crate "
+                   "(fixtures/controls) whose two bad examples it must report and whose two good ones it must accept")
     prog = ctx.prog(cfg)
     n = 0
     for f in sorted(prog.fns.values(), key=lambda f: f.key):
         if f.crate != "jiff":
             continue
-        has_f = any(t.get("path", "").endswith("::signum") and re.search(r"f(32|64)", t.get("path", "")) for _, t in mir.iter_calls(f))
-        has_rem = any(s["s"] == "=" and s["rv"]["k"] == "bin" and s["rv"]["op"] == "Rem" and s["rv"].get("ty") in ("f64", "f32")
-                      for b in f.blocks for s in b["st"])
-        if not (has_f or has_rem):
-            continue
-        T = Terms(f)
-        cmps = []
-        for bi, b in enumerate(f.blocks):
-            for si, s in enumerate(b["st"]):
-                if s["s"] == "=" and s["rv"]["k"] == "bin" and s["rv"]["op"] in CMP:
-                    cmps.append((bi, si, s, T.operand(s["rv"]["a"], pos=(bi, si)), T.operand(s["rv"]["b"], pos=(bi, si))))
-        zero_tested = set()
-        for (_bi, _si, _s, a, b) in cmps:
-            if _fconst(b) == 0.0:
-                zero_tested.add(a)
-            if _fconst(a) == 0.0:
-                zero_tested.add(b)
-        ords = {}
-        for (bi, si, s, a, b) in cmps:
-            loc = "%s:%s" % (f.file, s.get("ln"))
-            for side in (a, b):
-                sg = [x for x in walk(side) if _is_fsignum(x)]
-                for x in sg:
-                    n += 1
-                    ords["signum"] = ords.get("signum", 0) + 1
-                    key = norm_key("%s | FLOAT-SIGNUM#%d" % (f.key, ords["signum"]))
-                    arg = x[2][0] if x[2] else None
-                    if arg in zero_tested:
-                        rep.ok(rule, key, how="the argument of signum is also compared with 0", loc=loc)
-                    else:
-                        rep.violation(rule, key, "signum(%s) is compared as if it could be 0, but float signum maps +0.0 to 1.0: "
-                                      "an exact result (difference 0) is classified as a positive change" % show(arg, maxd=3)[:120], loc)
-            # tie test
-            for (lhs, rhs) in ((a, b), (b, a)):
-                c = _fconst(rhs)
-                if c is not None and c > 0 and lhs[0] == "bin" and lhs[1] == "Rem" and s["rv"]["op"] in ("Eq", "Ne"):
-                    n += 1
-                    ords["tie"] = ords.get("tie", 0) + 1
-                    key = norm_key("%s | FLOAT-TIE#%d" % (f.key, ords["tie"]))
-                    dividend = lhs[2]
-                    is_abs = dividend[0] == "call" and dividend[1].endswith("::abs")
-                    if is_abs:
-                        rep.ok(rule, key, how="the dividend is an absolute value", loc=loc)
-                    else:
-                        rep.violation(rule, key, "`%s %% %s == %s` is true only for non-negative dividends (the remainder of a negative "
-                                      "dividend is negative), so negative ties are not detected" % (show(dividend, maxd=2)[:80], show(lhs[3])[:12], c), loc)
-            # remainder made absolute: abs(x % k) == c
-            for (lhs, rhs) in ((a, b), (b, a)):
-                c = _fconst(rhs)
-                if c is not None and c > 0 and lhs[0] == "call" and lhs[1].endswith("::abs") and lhs[2] and lhs[2][0][0] == "bin" and lhs[2][0][1] == "Rem":
-                    n += 1
-                    ords["tie"] = ords.get("tie", 0) + 1
-                    rep.ok(rule, norm_key("%s | FLOAT-TIE#%d" % (f.key, ords["tie"])), how="the remainder is made absolute", loc=loc)
+        for (ok, kind, o, text, loc) in _float_sign_sites(f):
+            n += 1
+            key = norm_key("%s | %s#%d" % (f.key, kind, o))
+            if ok:
+                rep.ok(rule, key, how=text, loc=loc)
+            else:
+                rep.violation(rule, key, text, loc)
     rep.floor(rule + " sites", n, floor)
+    ctl = facts.load_controls()
+    bad = {"%s:%s" % (f.path, kind) for f in ctl.fns.values() for (ok, kind, _o, _t, _l) in _float_sign_sites(f) if not ok}
+    good = {"%s:%s" % (f.path, kind) for f in ctl.fns.values() for (ok, kind, _o, _t, _l) in _float_sign_sites(f) if ok}
+    _controls(rep, rule, "FLOAT-SIGNUM/FLOAT-TIE", bad, {"bad_signum:FLOAT-SIGNUM", "bad_tie:FLOAT-TIE"})
+    if good != {"good_signum:FLOAT-SIGNUM", "good_tie:FLOAT-TIE"}:
+        rep.violation(rule, "matcher control (accepting)", "on the control crate the matcher accepts %s, expected the two good examples" % sorted(good),
+                      "fixtures/controls/src/lib.rs")
+
+
+ROUND_ROOTS = ["span::Span::round", "span::SpanRound::<'a>::round", "zoned::Zoned::round", "zoned::Zoned::until", "zoned::Zoned::since",
+               "timestamp::Timestamp::round", "timestamp::Timestamp::until", "timestamp::Timestamp::since",
+               "civil::datetime::DateTime::round", "civil::datetime::DateTime::until", "civil::datetime::DateTime::since",
+               "civil::date::Date::until", "civil::date::Date::since", "civil::time::Time::round", "civil::time::Time::until",
+               "civil::time::Time::since", "signed_duration::SignedDuration::round", "tz::offset::Offset::round",
+               "span::Span::checked_add", "span::Span::checked_sub", "span::Span::compare"]
+
+
+def run_float_exact(ctx, rep, cfg="Q", rule="FLOAT-EXACT"):
+    """a rounding decision must not be taken on a float made from a 64/128-bit count"""
+    from . import facts
+    rep.rule(rule, "in every function reachable from the rounding, difference, addition and comparison entry points (Span::round, "
+                   "*::round, *::until/since, Span::checked_add/compare - not Span::total and the *_f64 conversions, whose results "
+                   "are floats by contract) no integer wider than the 53-bit mantissa of f64 (i64, u64, i128, u128, isize, usize) is "
+                   "converted to a float: a year is 3.15e16 ns > 2^53, so the float of a nanosecond count is inexact and every "
+                   "discrete decision taken on it (which neighbour, which side of a tie) is wrong for inputs within a few "
+                   "nanoseconds of the boundary. Expected count on the repository: 0; control: fixtures/controls bad_exact")
+    E = ctx.e1(cfg)
+    roots = [k for k in (("jiff::" + r) for r in ROUND_ROOTS) if k in E.prog.fns]
+    rep.floor(rule + " roots", len(roots), 18)
+    parent = E.cg.reach(roots)
+    n_fn = 0
+    for k in sorted(parent):
+        f = E.prog.fns.get(k)
+        if f is None or f.crate != "jiff":
+            continue
+        n_fn += 1
+        sites = list(_float_exact_sites(f))
+        for (o, ty, loc) in sites:
+            chain = " -> ".join(x[0].split("::")[-1] for x in reversed(E.cg.path_to(parent, k)))
+            rep.violation(rule, norm_key("%s | FLOAT-EXACT#%d" % (f.key, o)), "a %s is converted to a float in a function that takes part in "
+                          "rounding/difference decisions (%s): the float of a count above 2^53 is inexact, so the neighbour or the "
+                          "side of a tie is chosen wrongly for inputs within a few nanoseconds of a boundary" % (ty, chain[:160]), loc)
+    rep.ok(rule, "functions reachable from the rounding entry points", how="%d functions, conversions of wide integers to floats are reported individually" % n_fn, nontrivial=False)
+    rep.floor(rule + " functions", n_fn, 300)
+    ctl = facts.load_controls()
+    got = {f.path for f in ctl.fns.values() if list(_float_exact_sites(f))}
+    _controls(rep, rule, "FLOAT-EXACT", got, {"bad_exact"})
 
 
 def run_floatdiv(ctx, rep, cfg="Q", rule="FLOAT-DIV", floor=8):
